@@ -405,7 +405,9 @@ class ExprMixin:
             raise Unsupported(f"Path / {tb} at line {lineno}")
         if isinstance(op, ast.Add) and ta == "str" and tb == "str":
             return [Res(st, V(StrV(z3.Concat(vs(a.t), vs(b.t))), "str"))]
-        if isinstance(op, ast.Add) and ta == "bytes" and tb == "bytes":
+        if isinstance(op, ast.Add) and "bytes" in (ta, tb) and ta in ("bytes", None) and tb in ("bytes", None):
+            if ta != tb and not self.spec_depth:      # one operand statically untyped: it must be bytes too
+                self.oblige(f"type-safety:bytes@L{lineno}", "type-safety", z3.And(Val.is_BytesV(a.t), Val.is_BytesV(b.t)), st, lineno)
             return [Res(st, V(Val.BytesV(z3.Concat(vbs(a.t), vbs(b.t))), "bytes"))]
         if isinstance(op, ast.Add) and ta in ("list", "tuple") and tb in ("list", "tuple"):
             s2 = st
@@ -683,7 +685,7 @@ class ExprMixin:
         if kind == "dict":
             body = ast.Assign(targets=[ast.Subscript(value=ast.Name(id=acc, ctx=ast.Load()), slice=n.key, ctx=ast.Store())], value=n.value)
         else:
-            body = ast.Expr(value=ast.Call(func=ast.Attribute(value=ast.Name(id=acc, ctx=ast.Load()), attr="append", ctx=ast.Load()),
+            body = ast.Expr(value=ast.Call(func=ast.Attribute(value=ast.Name(id=acc, ctx=ast.Load()), attr="add" if kind == "set" else "append", ctx=ast.Load()),
                                            args=[n.elt], keywords=[]))
         for c in reversed(g.ifs):
             body = ast.If(test=c, body=[body], orelse=[])
@@ -705,7 +707,10 @@ class ExprMixin:
         return out
 
     def ev_SetComp(self, st, n):
-        return self.comprehension(st, n, "set")
+        try:
+            return self.comprehension(st.copy(), n, "set")
+        except Unsupported:
+            return self.comp_as_loop(st, n, "set")
 
     def ev_GeneratorExp(self, st, n):
         return self.comprehension(st, n, "list")
